@@ -162,7 +162,17 @@ impl<F: Fam> Ctx<F> {
         let obj = F::K::mk(kk);
         let new_id = obj.id();
         // returns (bool-ish result, id seen, id created)
+        // every fourth remove / take / get / contains goes through the borrowed form of the element
+        let borrowed = (kk as usize ^ self.op_index) % 4 == 0 && (2..=5).contains(&which);
         let ((flag, seen_id, made_id), obs) = self.observe_set(s, &[C13], move |set| match which {
+            2..=5 if borrowed => {
+                let r = F::set_qv(set, QV::of(&kk), which).unwrap_or(None);
+                match (which, r) {
+                    (3 | 4, Some((_, id))) => (true, id, 0),
+                    (_, Some(_)) => (true, 0, 0),
+                    (_, None) => (false, 0, 0),
+                }
+            }
             0 => (set.insert(obj), 0, 0),
             1 => match set.replace(obj) {
                 Some(old) => {
@@ -469,6 +479,9 @@ impl<F: Fam> Ctx<F> {
                     }
                     if take_n >= n {
                         ic!(errs, it.next().is_none() && it.next().is_none(), "set into_iter(): item after the end");
+                    } else if take_n % 3 == 1 {
+                        ic!(errs, it.nth(rem + 1).is_none(), "set into_iter(): nth({}) with {} items left is Some", rem + 1, rem);
+                        ic!(errs, it.len() == 0 && it.next().is_none(), "set into_iter(): after nth() past the end len() = {}, not exhausted", it.len());
                     }
                     drop(it);
                 }))
@@ -564,6 +577,10 @@ impl<F: Fam> Ctx<F> {
                     if forget {
                         std::mem::forget(d);
                     } else {
+                        if take_n % 3 == 1 {
+                            ic!(errs, d.nth(rem + 1).is_none(), "set drain(): nth({}) with {} items left is Some", rem + 1, rem);
+                            ic!(errs, d.len() == 0 && d.next().is_none(), "set drain(): after nth() past the end len() = {}, not exhausted", d.len());
+                        }
                         drop(d);
                     }
                 }
@@ -635,7 +652,8 @@ impl<F: Fam> Ctx<F> {
                     fail!(self, [C13], "unexpected-panic", "set from_iter panicked: {} at {}", msg, norm_loc(&loc));
                 }
             };
-            self.replace_set(s, newset, VH::default(), a.allocs as i64 - a.deallocs as i64)?;
+            let vh = *newset.hasher();
+            self.replace_set(s, newset, vh, a.allocs as i64 - a.deallocs as i64)?;
         } else {
             let (_, obs) = self.observe_set(s, &[C13], move |set| {
                 if by_ref && F::set_extend_ref(set, objs_ref) {
